@@ -39,7 +39,7 @@ impl<P: DepOrder> DepOrderer<P> {
 //@   spec
 //|         requires obeys_key_model::<P::Item>(),
 //|         ensures r is Ok ==> is_dep_ordering(r->Ok_0@, items@, |i: P::Item| P::deps(i)),
-//@   before /Push it each item in/
+//@   before1 /Push it each item in|for item in items\.iter\(\)/
 //|         proof {
 //|             assert(this.stack@.to_set() =~= Set::<P::Item>::empty());
 //|         }
@@ -62,7 +62,7 @@ impl<P: DepOrder> DepOrderer<P> {
 //|                     assert(this.stack@.contains(items@[k]));
 //|                 }
 //|             }
-//@   before /And return its ordered stack/
+//@   before1 /And return its ordered stack|^        Ok\(this\.stack\)$/
 //|         proof {
 //|             let d = |x: P::Item| P::deps(x);
 //|             assert forall|i: int| 0 <= i < this.stack@.len() implies (#[trigger] d(this.stack@[i])).subset_of(this.stack@.take(i).to_set()) by {
@@ -91,7 +91,7 @@ impl<P: DepOrder> DepOrderer<P> {
 //|             proof { assert(self.pending@ == old(self).pending@.insert(*item)); }
 //@   after /P::process\(item, self\)\?;/
 //|             let ghost after = *self;
-//@   before /And insert the Item itself/
+//@   before1 /And insert the Item itself|self\.seen\.insert\(item\.clone\(\)\);/
 //|             proof {
 //|                 assert(self.pending@ =~= old(self).pending@);
 //|                 assert(!after.seen@.contains(*item));
